@@ -699,6 +699,39 @@ def check_C10(A: Analysis, tier):
         rg.fail(f.func, f.construct, f.message + " (after a crash the duplicate-content branch / look-up would trust this file)", f.loc, f.detail)
     rules.append(rg)
 
+    rh10 = Rule("C10", "C10.h", "no call opens, reads, sizes or renames a file on a path on which it has itself found that file absent (and has "
+                "not created it since): the clean-up of a partial state must not depend on the very file whose absence defines that state", floor=20)
+    seen10 = set()
+    for e in PUBLIC_API:
+        for m in ("th",):
+            it = A.api(e, m)
+            for ev in it.events:
+                if ev.kind not in ("READ", "WRITE", "RENAME", "REMOVE") or ev.prim.startswith("file.") or not ev.paths:
+                    continue
+                if ev.kind == "WRITE" and not ev.extra.get("mode", "").startswith(("r", "a")):
+                    continue
+                k10 = (e, ev.func.qual, ev.line, ev.handling)
+                if k10 in seen10:
+                    continue
+                seen10.add(k10)
+                rh10.ob()
+                rh10.inst(f"{e}: {ev.func.qual}:{ev.line} {ev.kind} {ev.prim}" + (f" while handling {ev.handling[-1]}" if ev.handling else ""))
+                created = {d[3] for d in ev.done if len(d) == 4 and d[0] == "prim" and ((d[1] == "RENAME" and d[2] == 1) or (d[1] in ("CREATE", "WRITE") and d[2] == 0))}
+                for fct, pol in ev.facts:
+                    for a in F.atoms_of(fct):
+                        if a[0] == "probe" and a[1] in ("isfile", "exists") and (a[2] & ev.paths[0]) and F.implied(ev.facts, a) is False:
+                            cl = {c.cls for t in (a[2] & ev.paths[0]) for c in [classify(t)]}
+                            if cl & created or ev.kind == "REMOVE" and "TMP" in cl:
+                                continue
+                            # the call has also seen the file present (a later re-test, e.g. the guard of the helper that opens it)
+                            if any(b[0] == "probe" and b[1] in ("isfile", "exists") and (b[2] & a[2] & ev.paths[0]) and F.implied(ev.facts, b) is True
+                                   for f2, p2 in ev.facts for b in F.atoms_of(f2)):
+                                continue
+                            rh10.fail(site_func(ev), site_text(ev), f"{e} {ev.kind.lower()}s {sorted(cl)} `{showv(a[2] & ev.paths[0])[:70]}` on a path on which it has found that file "
+                                      "absent" + (f" (clean-up branch for {ev.handling[-1]})" if ev.handling else "") + ": the step fails deterministically, so the "
+                                      "state it was meant to repair can never be repaired", site_loc(A, ev), {"entry": e, "handling": list(ev.handling)})
+    rules.append(rh10)
+
     re_ = Rule("C10", "C10.e", "adding a pid to an existing cid list is guarded by a negative membership test "
                "(re-tagging after a crash tolerates a pid already listed)", floor=1)
     for m in ALL_MODES:
